@@ -51,6 +51,36 @@ def canonicalise(tree: ast.AST) -> None:
                         i += 2
                         continue
                     i += 1
+    # a test that is a literal truth value (a flag parameter of a helper that was read through with its argument):
+    #   if False: A else: B  ->  B ;   X if True else Y  ->  X ;   not True -> False ;   True and X -> X ;  False or X -> X
+    _fold_literal_tests(tree)
+    # a, b = (x, y)  with plain names on both sides that do not overlap   ->   a = x ; b = y
+    for node in ast.walk(tree):
+        for fld in ("body", "orelse", "finalbody"):
+            seq = getattr(node, fld, None)
+            if not (isinstance(seq, list) and seq and isinstance(seq[0], ast.stmt)) or isinstance(node, (ast.ClassDef, ast.Module)):
+                continue
+            i = 0
+            while i < len(seq):
+                st = seq[i]
+                if isinstance(st, ast.Assign) and len(st.targets) == 1 and isinstance(st.targets[0], ast.Tuple) and isinstance(st.value, ast.Tuple) \
+                        and len(st.targets[0].elts) == len(st.value.elts) >= 2 \
+                        and all(isinstance(e, ast.Name) for e in st.targets[0].elts) and all(isinstance(e, ast.Name) for e in st.value.elts) \
+                        and not ({e.id for e in st.targets[0].elts} & {e.id for e in st.value.elts}) \
+                        and len({e.id for e in st.targets[0].elts}) == len(st.targets[0].elts):
+                    new = []
+                    for t_, v_ in zip(st.targets[0].elts, st.value.elts):
+                        a_ = ast.copy_location(ast.Assign(targets=[t_], value=v_, lineno=st.lineno), st)
+                        ast.fix_missing_locations(a_)
+                        new.append(a_)
+                    seq[i:i + 1] = new
+                    i += len(new)
+                    continue
+                i += 1
+    # a = b  (two locals, each bound once, neither binding inside a loop)   ->   `a` is read as `b`
+    for fn_ in ast.walk(tree):
+        if isinstance(fn_, (ast.FunctionDef, ast.AsyncFunctionDef)):
+            _read_through_name_aliases(fn_)
     # if C: raise AssertionError[(msg)]   ->   assert not C[, msg]      (`A or B` gives one assert per operand)
     for node in ast.walk(tree):
         for fld in ("body", "orelse", "finalbody"):
@@ -374,6 +404,27 @@ def canonicalise(tree: ast.AST) -> None:
                 if isinstance(st, ast.Assign) and len(st.targets) == 1 and isinstance(st.targets[0], ast.Subscript) and isinstance(st.value, ast.IfExp):
                     a_ = ast.copy_location(ast.Assign(targets=[copy.deepcopy(st.targets[0])], value=st.value.body, lineno=st.lineno), st)
                     b_ = ast.copy_location(ast.Assign(targets=[copy.deepcopy(st.targets[0])], value=st.value.orelse, lineno=st.lineno), st)
+                    seq[i] = ast.copy_location(ast.If(test=st.value.test, body=[a_], orelse=[b_]), st)
+                    ast.fix_missing_locations(seq[i])
+                # x = A if c else B  ->  if c: x = A else: x = B ;   x = D if c else x  ->  if c: x = D ;   return A if c else B
+                elif isinstance(st, ast.Assign) and len(st.targets) == 1 and isinstance(st.targets[0], ast.Name) and isinstance(st.value, ast.IfExp) and not isinstance(node, (ast.Module, ast.ClassDef)):
+                    tn = st.targets[0].id
+                    arms_ = []
+                    for v_ in (st.value.body, st.value.orelse):
+                        if isinstance(v_, ast.Name) and v_.id == tn:
+                            arms_.append([])
+                        else:
+                            arms_.append([ast.copy_location(ast.Assign(targets=[ast.Name(id=tn, ctx=ast.Store())], value=v_, lineno=st.lineno), st)])
+                    if not arms_[0] and not arms_[1]:
+                        continue
+                    if not arms_[0]:
+                        seq[i] = ast.copy_location(ast.If(test=ast.UnaryOp(op=ast.Not(), operand=st.value.test), body=arms_[1], orelse=[]), st)
+                    else:
+                        seq[i] = ast.copy_location(ast.If(test=st.value.test, body=arms_[0], orelse=arms_[1]), st)
+                    ast.fix_missing_locations(seq[i])
+                elif isinstance(st, ast.Return) and isinstance(st.value, ast.IfExp):
+                    a_ = ast.copy_location(ast.Return(value=st.value.body), st)
+                    b_ = ast.copy_location(ast.Return(value=st.value.orelse), st)
                     seq[i] = ast.copy_location(ast.If(test=st.value.test, body=[a_], orelse=[b_]), st)
                     ast.fix_missing_locations(seq[i])
     # f(.., **{"k": v, ..})   ->   f(.., k=v, ..)      (a keyword table with constant keys written out)
@@ -733,6 +784,137 @@ def canonicalise(tree: ast.AST) -> None:
                 node.test = t.operand
                 node.body, node.orelse = node.orelse, node.body
     _normalise_len_compares(tree)
+
+
+def _read_through_name_aliases(fn: ast.AST) -> None:
+    own = [n for n in _walk_own(fn)]
+    stores: dict = {}
+    decls = {id(n.target) for n in own if isinstance(n, ast.AnnAssign) and n.value is None}
+    for n in own:
+        if isinstance(n, ast.Name) and isinstance(n.ctx, (ast.Store, ast.Del)) and id(n) not in decls:
+            stores[n.id] = stores.get(n.id, 0) + 1
+        elif isinstance(n, (ast.Global, ast.Nonlocal)):
+            return
+    params = {a.arg for a in fn.args.args + fn.args.kwonlyargs + fn.args.posonlyargs} | ({fn.args.vararg.arg} if fn.args.vararg else set()) | ({fn.args.kwarg.arg} if fn.args.kwarg else set())
+    # names re-bound by a nested function / comprehension are left alone
+    nested_stores = set()
+    for n in ast.walk(fn):
+        if n is not fn and isinstance(n, (ast.FunctionDef, ast.AsyncFunctionDef, ast.Lambda)):
+            for x in ast.walk(n):
+                if isinstance(x, ast.Name) and isinstance(x.ctx, ast.Store):
+                    nested_stores.add(x.id)
+
+    def top_assigns(stmts, in_loop, out):
+        for st in stmts:
+            if isinstance(st, ast.Assign) and len(st.targets) == 1 and isinstance(st.targets[0], ast.Name):
+                out.append((st, in_loop, stmts))
+            for fld in ("body", "orelse", "finalbody"):
+                sub = getattr(st, fld, None)
+                if isinstance(sub, list) and sub and isinstance(sub[0], ast.stmt) and not isinstance(st, (ast.FunctionDef, ast.AsyncFunctionDef, ast.ClassDef)):
+                    top_assigns(sub, in_loop or isinstance(st, (ast.For, ast.While, ast.AsyncFor)), out)
+            if isinstance(st, ast.Try):
+                for h in st.handlers:
+                    top_assigns(h.body, in_loop, out)
+
+    for _round in range(3):
+        assigns: list = []
+        top_assigns(fn.body, False, assigns)
+        plain = {}
+        for st, in_loop, holder in assigns:
+            if not in_loop and stores.get(st.targets[0].id, 0) == 1 and st.targets[0].id not in params and st.targets[0].id not in nested_stores:
+                plain[st.targets[0].id] = (st, holder)
+        done = False
+        for a, (st, holder) in plain.items():
+            v = st.value
+            if not isinstance(v, ast.Name) or v.id == a or v.id in nested_stores:
+                continue
+            b = v.id
+            if not (b in params and stores.get(b, 0) == 0 or b in plain):
+                continue
+            for n in ast.walk(fn):
+                if isinstance(n, ast.Name) and n.id == a and isinstance(n.ctx, ast.Load):
+                    n.id = b
+            holder.remove(st)
+            if not holder:
+                holder.append(ast.copy_location(ast.Pass(), st))
+            stores[a] = 0
+            done = True
+            break
+        if not done:
+            break
+
+
+def _walk_own(fn: ast.AST):
+    stack = list(ast.iter_child_nodes(fn))
+    while stack:
+        n = stack.pop()
+        yield n
+        if isinstance(n, (ast.FunctionDef, ast.AsyncFunctionDef, ast.Lambda, ast.ClassDef)):
+            continue
+        stack.extend(ast.iter_child_nodes(n))
+
+
+def _fold_literal_tests(tree: ast.AST) -> None:
+    def lit(e):
+        return isinstance(e, ast.Constant) and isinstance(e.value, bool)
+
+    class _E(ast.NodeTransformer):
+        def visit_UnaryOp(self, n):
+            self.generic_visit(n)
+            if isinstance(n.op, ast.Not) and lit(n.operand):
+                return ast.copy_location(ast.Constant(value=not n.operand.value), n)
+            return n
+
+        def visit_BoolOp(self, n):
+            self.generic_visit(n)
+            if not any(lit(v) for v in n.values):
+                return n
+            is_and = isinstance(n.op, ast.And)
+            vals = []
+            for v in n.values:
+                if lit(v):
+                    if v.value == is_and:
+                        continue  # neutral element
+                    vals.append(v)  # absorbing element: nothing after it is evaluated
+                    break
+                vals.append(v)
+            if not vals:
+                return ast.copy_location(ast.Constant(value=is_and), n)
+            if len(vals) == 1:
+                return vals[0]
+            if lit(vals[-1]) and len(vals) > 1:
+                # `X and False` still evaluates X: keep as it stands
+                n.values = vals
+                return n
+            n.values = vals
+            return n
+
+        def visit_IfExp(self, n):
+            self.generic_visit(n)
+            if lit(n.test):
+                return n.body if n.test.value else n.orelse
+            return n
+
+    _E().visit(tree)
+    changed = True
+    while changed:
+        changed = False
+        for node in ast.walk(tree):
+            for fld in ("body", "orelse", "finalbody"):
+                seq = getattr(node, fld, None)
+                if not (isinstance(seq, list) and seq and isinstance(seq[0], ast.stmt)):
+                    continue
+                i = 0
+                while i < len(seq):
+                    st = seq[i]
+                    if isinstance(st, ast.If) and lit(st.test):
+                        rep = st.body if st.test.value else st.orelse
+                        if not rep and len(seq) == 1:
+                            rep = [ast.copy_location(ast.Pass(), st)]
+                        seq[i:i + 1] = rep
+                        changed = True
+                        continue
+                    i += 1
 
 
 def _normalise_len_compares(tree: ast.AST) -> None:
